@@ -1,0 +1,52 @@
+//go:build verif
+
+package dilithium
+
+// Verification hooks (build tag "verif" only): the key (de)serialisers on plain arrays.
+// Add-only; nothing in the library calls these.
+
+func VerifPackSk(rho, tr, key [SeedBytes]uint8, t0 *[K][N]int32, s1 *[L][N]int32, s2 *[K][N]int32) (sk [CryptoSecretKeyBytes]uint8) {
+	var vt0, vs2 polyVecK
+	var vs1 polyVecL
+	for i := 0; i < K; i++ {
+		vt0.vec[i].coeffs = t0[i]
+		vs2.vec[i].coeffs = s2[i]
+	}
+	for i := 0; i < L; i++ {
+		vs1.vec[i].coeffs = s1[i]
+	}
+	packSk(&sk, rho, tr, key, &vt0, &vs1, &vs2)
+	return
+}
+
+func VerifUnpackSk(sk *[CryptoSecretKeyBytes]uint8) (rho, tr, key [SeedBytes]uint8, t0 [K][N]int32, s1 [L][N]int32, s2 [K][N]int32) {
+	var vt0, vs2 polyVecK
+	var vs1 polyVecL
+	unpackSk(&rho, &tr, &key, &vt0, &vs1, &vs2, sk)
+	for i := 0; i < K; i++ {
+		t0[i] = vt0.vec[i].coeffs
+		s2[i] = vs2.vec[i].coeffs
+	}
+	for i := 0; i < L; i++ {
+		s1[i] = vs1.vec[i].coeffs
+	}
+	return
+}
+
+func VerifPackPk(rho [SeedBytes]uint8, t1 *[K][N]int32) (pk [CryptoPublicKeyBytes]uint8) {
+	var vt1 polyVecK
+	for i := 0; i < K; i++ {
+		vt1.vec[i].coeffs = t1[i]
+	}
+	packPk(&pk, rho, &vt1)
+	return
+}
+
+func VerifUnpackPk(pk *[CryptoPublicKeyBytes]uint8) (rho [SeedBytes]uint8, t1 [K][N]int32) {
+	var vt1 polyVecK
+	unpackPk(&rho, &vt1, pk)
+	for i := 0; i < K; i++ {
+		t1[i] = vt1.vec[i].coeffs
+	}
+	return
+}
